@@ -1,4 +1,5 @@
 #include "app.h"
+#include <time.h>
 #include <math.h>
 
 #define GOLD 0x9E3779B97F4A7C15ULL
@@ -220,6 +221,18 @@ void app_process(lp_id_t me, simtime_t now, unsigned type, const void *pl, unsig
 	}
 	s->acc = a;
 	s->cnt++;
+	{
+		/* optional cost of an event (VERIF_EVENT_SPIN_NS, scaled by 1..3 per LP): expensive handlers make main-loop iterations long
+		   with respect to the GVT protocol steps, which moves the points at which workers notice the end of the run */
+		static long spin_ns = -1;
+		if(spin_ns < 0) { const char *e = getenv("VERIF_EVENT_SPIN_NS"); spin_ns = e ? atol(e) : 0; }
+		if(spin_ns > 0) {
+			struct timespec t0, t1;
+			clock_gettime(CLOCK_MONOTONIC, &t0);
+			long want = spin_ns * (long)(1 + me % 3);
+			do clock_gettime(CLOCK_MONOTONIC, &t1); while((t1.tv_sec - t0.tv_sec) * 1000000000L + (t1.tv_nsec - t0.tv_nsec) < want);
+		}
+	}
 	if(app_prog.has_stop && me == app_prog.stop_lp && s->cnt == app_prog.stop_cnt)
 		RootsimStop();
 	for(int i = 0; i < r->nouts; ++i) {
